@@ -248,7 +248,7 @@ fn long_token(t: &mut Tape) -> String {
     }
 }
 
-fn mutate_lexemes(lex: &mut Vec<Lexeme>, t: &mut Tape) {
+pub fn mutate_lexemes(lex: &mut Vec<Lexeme>, t: &mut Tape) {
     let k = 1 + t.below(8);
     for _ in 0..k {
         if lex.is_empty() {
